@@ -92,10 +92,10 @@ func (p pipeQ) Pop(anyway bool) (int, bool) {
 	}
 	return v.(int), true
 }
-func (p pipeQ) Close()                  { p.x.Close() }
-func (p pipeQ) TryClose() (bool, bool)  { return false, false }
-func (p pipeQ) HasCtrl() bool           { return false }
-func (p pipeQ) DropsAfterClose() bool   { return false }
+func (p pipeQ) Close()                 { p.x.Close() }
+func (p pipeQ) TryClose() (bool, bool) { return false, false }
+func (p pipeQ) HasCtrl() bool          { return false }
+func (p pipeQ) DropsAfterClose() bool  { return false }
 
 type asyncQ struct{ x *async.Q }
 
